@@ -11,8 +11,9 @@ C06: cost-annotated models of the mechanisms that keep parsing and rendering lin
   * `btStepsNoMemo` the same loop without the flag (what the `$`..`$` scanner does today).
   * `cdSteps`      `scan_to_closing_code_dollar` driven from every opener of a text in which no
                    opener has a closer: no memo, every opener scans to the end.
-  * `emLoop`       `process_emphasis` over an abstract delimiter stack with `openers_bottom[12]`, as pinned
-                   (`fix = false`) and as it should be (`fix = true`), counting opener-search steps.
+  * `emLoop`       `process_emphasis` over an abstract delimiter stack with `openers_bottom`, as it is
+                   (`fix = true`, 17 slots) and as it was before /repo commit 9704a60 (`fix = false`, 12 slots),
+                   counting opener-search steps.
   * `refLookup`    `RefMap::lookup` with its expansion budget.
   * `autocompleteOk`, `xmlIndent`, `labelScan`, `parenDepth`: the caps.
 Core Lean only.
@@ -240,11 +241,27 @@ structure Delim where
   pos : Nat
   deriving DecidableEq, Repr
 
-/-- Index into `openers_bottom`: `| ~ ^ " ' _` have one entry each, `*` has 6 (can_open x length % 3). -/
-def bottomIx (c : Delim) : Nat :=
+/-- Index into `openers_bottom[12]` before /repo commit 9704a60: `| ~ ^ " ' _` have one entry each,
+    `*` has 6 (can_open x length % 3). -/
+def bottomIxOld (c : Delim) : Nat :=
   if c.ch = 0x7C then 0 else if c.ch = 0x7E then 1 else if c.ch = 0x5E then 2
   else if c.ch = 0x22 then 3 else if c.ch = 0x27 then 4 else if c.ch = 0x5F then 5
   else 6 + (if c.canOpen then 3 else 0) + c.len % 3
+
+/-- Index into `openers_bottom[17]` (the code as it is): `| ~ ^ " '` have one entry each, `_` has 6
+    (5 + can_open x 3 + length % 3) and `*` has 6 (11 + can_open x 3 + length % 3). -/
+def bottomIxNew (c : Delim) : Nat :=
+  if c.ch = 0x7C then 0 else if c.ch = 0x7E then 1 else if c.ch = 0x5E then 2
+  else if c.ch = 0x22 then 3 else if c.ch = 0x27 then 4
+  else if c.ch = 0x5F then 5 + (if c.canOpen then 3 else 0) + c.len % 3
+  else 11 + (if c.canOpen then 3 else 0) + c.len % 3
+
+/-- `fix = true`: the code as it is (since /repo commit 9704a60); `fix = false`: the loop before that repair. -/
+def bottomIx (fix : Bool) (c : Delim) : Nat := if fix then bottomIxNew c else bottomIxOld c
+
+/-- Is `openers_bottom[ix]` raised after a failed search for closer `c` even when the rule of three skipped a
+    candidate? Since the repair: for `*` and `_` (`matches!(old_c.delim_char, b'*' | b'_')`); before: never. -/
+def alwaysRaise (fix : Bool) (c : Delim) : Bool := fix && (c.ch == 0x2A || c.ch == 0x5F)
 
 /-- The rule of three (`odd_match`). -/
 def oddMatch (o c : Delim) : Bool :=
@@ -278,22 +295,24 @@ def useChars (o c : Delim) : Nat := if 2 ≤ c.cur ∧ 2 ≤ o.cur then 2 else 1
 def shrink (d : Delim) (use : Nat) (rest : List Delim) : List Delim :=
   if d.cur ≤ use then rest else { d with cur := d.cur - use } :: rest
 
-/-- The outer loop. `fix = false`: the pinned code (`openers_bottom[ix]` is not updated after a failed
-    search during which the rule of three skipped a candidate); `fix = true`: updated after every failed
-    search. `none` = fuel exhausted. -/
+/-- The outer loop. `fix = true`: the code as it is - after a failed search `openers_bottom[ix]` is raised
+    `if !mod_three_rule_invoked || matches!(delim_char, b'*' | b'_')`, 17 slots. `fix = false`: the loop before
+    /repo commit 9704a60 - raised only `if !mod_three_rule_invoked`, 12 slots with a single one for `_` (kept as
+    the historical counterexample, `emphasis_quadratic_counterexample`). `none` = fuel exhausted. -/
 def emLoop (fix : Bool) : Nat → (Nat → Nat) → List Delim → List Delim → Option Nat
   | _, _, _, [] => some 0
   | 0, _, _, _ :: _ => none
   | fuel + 1, bot, left, c :: above =>
     if c.canClose then
-      let s := emSearch c (bot (bottomIx c)) left
+      let s := emSearch c (bot (bottomIx fix c)) left
       match s.hit with
       | some (o, below) =>
         -- insert_emph: use 2 characters of each if both have 2, else 1; used-up delimiters leave the stack;
         -- a closer with characters left is matched again
         (emLoop fix fuel bot (shrink o (useChars o c) below) (shrink c (useChars o c) above)).map (1 + s.cost + ·)
       | none =>
-        let bot' : Nat → Nat := if fix || !s.mod3 then (fun k => if k = bottomIx c then c.pos else bot k) else bot
+        let bot' : Nat → Nat :=
+          if alwaysRaise fix c || !s.mod3 then (fun k => if k = bottomIx fix c then c.pos else bot k) else bot
         (emLoop fix fuel bot' (if c.canOpen then c :: left else left) above).map (1 + s.cost + ·)
     else (emLoop fix fuel bot (c :: left) above).map (1 + ·)
 
@@ -301,7 +320,7 @@ def sumCur : List Delim → Nat
   | [] => 0
   | d :: ds => d.cur + sumCur ds
 
-/-- `process_emphasis(0)` on a whole inline text; the fuel is the termination measure
+/-- `process_emphasis(0)` on a whole inline text (`emSteps true`: the code as it is); the fuel is the termination measure
     (characters left + delimiters still to visit), see `emphasis_terminates`. -/
 def emSteps (fix : Bool) (ds : List Delim) : Option Nat :=
   emLoop fix (sumCur ds + ds.length) (fun _ => 0) [] ds
